@@ -252,6 +252,7 @@ def r5(ctx):
                   '(2^32 + 2 becomes 2), so anchors advance with far less work behind them than configured' % show(a)[:120])
     from rules import atoms
     atoms.depth_atoms(ctx, 'R5')
+    atoms.depth_recursions(ctx, 'R5')
     nt = ctx.fn('R5', GUB + '::normalized_stability_threshold')
     if nt:
         r = ex(prog, nt).local(0)
